@@ -25,6 +25,9 @@ MAX_TERMS = 400000
 # derivatives; d/dx NAME_s = NAME_{sorted(s+x)}.  Set by callers around a computation (see sa/checks/c03.py).
 JETS = set()
 JET_COORDS = ()
+# derived symbols: SYM_RULES[(symbol, coordinate)] = polynomial of d symbol / d coordinate (set by callers; the rule itself
+# must be justified separately, e.g. by the monomial-degree analysis of sa/checks/c05.py)
+SYM_RULES = {}
 
 
 class TooBig(Exception):
@@ -390,6 +393,8 @@ def atom_depends(a, x):
             return True
         if JETS and x in JET_COORDS and jet_base(a[1])[0] is not None:
             return True
+        if (a[1], x) in SYM_RULES:
+            return True
         return False
     if a[0] in ('sin', 'cos', 'inv'):
         return depends(uncanon(a[1]), x)
@@ -408,6 +413,8 @@ def d_atom(a, x, fn_rules=None):
             b, suf = jet_base(a[1])
             if b is not None:
                 return sym(b + '_' + ''.join(sorted(suf + x)))
+        if (a[1], x) in SYM_RULES:
+            return SYM_RULES[(a[1], x)]
         return {}
     if not atom_depends(a, x):
         return {}
